@@ -84,7 +84,7 @@ def sliceToSliceOn (lhs rhs : Node) (label : String) : Outcome (Option Stmt) :=
   | "a=gmodel.SliceAssignment{}; return" => .ok (some (.sliceCopy lhs rhs ("[]" ++ (env.ty le).str)))
   | "a=gmodel.SliceLoopAssignment{}; return" => .ok (some (.sliceLoop lhs rhs ("[]" ++ env.typeNameF le)))
   | "a=gmodel.SliceTypecastAssignment{}; return" =>
-    .ok (some (.sliceCast lhs rhs ("[]" ++ env.typeNameF le) (env.typeNameF le)))
+    .ok (some (.sliceCast lhs rhs ("[]" ++ env.typeNameF le) (conversionOperator (env.typeNameF le))))
   | _ => .panic "sliceToSlice: unknown path"
 
 /-- **`sliceToSlice` follows the source** (it is only called on two slice types, so both element
